@@ -12,6 +12,26 @@ import (
 	"github.com/hashicorp/raft"
 )
 
+// VerifForceSnapshot makes raft take a snapshot now (and compact its log).
+func (n *RaftNode) VerifForceSnapshot() error { return n.raft.Snapshot().Error() }
+
+// VerifLeadershipTransfer asks the leader to hand leadership over.
+func (n *RaftNode) VerifLeadershipTransfer() error { return n.leaveLeadership() }
+
+// VerifFSMState returns the in-memory fsm state (last applied raft index, last balloon version).
+func (n *RaftNode) VerifFSMState() (index, balloonVersion uint64) {
+	return n.state.Index, n.state.BalloonVersion
+}
+
+// VerifBalloonVersion returns the balloon's version counter (number of events).
+func (n *RaftNode) VerifBalloonVersion() uint64 { return n.balloon.Version() }
+
+// VerifRaftStats exposes raft's stats map (applied_index, commit_index, ...).
+func (n *RaftNode) VerifRaftStats() map[string]string { return n.raft.Stats() }
+
+// VerifRaftAddr returns the raft address other nodes use as seed.
+func (n *RaftNode) VerifRaftAddr() string { return n.info.RaftAddr }
+
 // VerifLogStore is the raft log store + stable store backing a RaftNode.
 type VerifLogStore interface {
 	raft.LogStore
